@@ -268,7 +268,7 @@ def classify(case, o):
 # ---- C: other uses of a snapshot that holds user-controlled parts: never compared, membership, sub-snapshots in loops
 def gen_usage(rng, i):
     kind = ["never", "in", "getitem_loop", "never", "in_nested", "bound_nested", "bound_fstring", "getitem_star", "star_nested",
-            "in_star", "star_loop", "equal_other_spelling", "call_hidden_kw", "inner_field", "fstring_nofield", "never_factory"][i % 16]
+            "in_star", "star_loop", "equal_other_spelling", "call_hidden_kw", "inner_field", "fstring_nofield", "never_factory", "cond_inner"][i % 17]
     g = G(rng, agree=True)
     flags = tuple(rng.choice(proggen.flag_subsets()))
     if kind == "never":
@@ -392,6 +392,22 @@ def gen_usage(rng, i):
             body = cls + f"EMPTY = ''\n\n\ndef test_a():\n    R = HD({a_new}) == snapshot(HD(a={a_old}, b=Is(EMPTY)))\n"
             g.snips.append("Is(EMPTY)")
         allowed = set()
+    elif kind == "cond_inner":
+        # documented "conditional snapshots": the outer snapshot is evaluated several times and the condition selects another nested snapshot() each time;
+        # every nested snapshot is the user's expression and records only what IT is compared with
+        order = rng.choice([(1, 2), (2, 1), (1, 2, 1, 2), (2, 2, 1)])
+        empty = rng.random() < 0.4
+        a, b = ("", "") if empty else ("'int'", "'str'")
+        cond = f"snapshot({a}) if version < 2 else snapshot({b})"
+        new_shape, old_shape = rng.choice([("{{'type': {t}, 'v': version}}", "{{'type': {c}, 'v': Is(version)}}"), ("[{t}, version, 3]", "[{c}, Is(version), 3]"),
+                                           ("DC(a={t}, b=version)", "DC(a={c}, b=Is(version))"), ("[[{t}], 0]", "[[{c}], 0]")])
+        body = (f"def test_a():\n    for version in {order!r}:\n        R = {new_shape.format(t='TYPES[version]')} == snapshot({old_shape.format(c=cond)})\n"
+                + ("" if empty else "        assert R\n"))
+        body = "TYPES = {1: 'int', 2: 'str'}\n\n\n" + body
+        g.snips += ["Is(version)"] if "Is(version)" in old_shape else []
+        g.snips += [] if empty else ["snapshot('int')", "snapshot('str')"]
+        allowed = set()
+        cond_inner = {"empty": empty}
     elif kind == "never_factory":
         # a never-compared snapshot whose argument calls a function that is NOT the constructor of the value it returns: its arguments are no fields,
         # nothing in the call is inline-snapshot's to rewrite (the call as a whole is the user's)
@@ -455,6 +471,8 @@ def gen_usage(rng, i):
         out["expect_fixed"] = expect_fixed
     if kind == "inner_field":
         out["inner"] = inner
+    if kind == "cond_inner":
+        out["cond_inner"] = cond_inner
     return out
 
 
@@ -486,6 +504,21 @@ def judge_usage(case, o):
         return f"session phase raised {o['session_exc']}"
     if "error" in o:
         return f"rewritten file unusable: {o['error']}"
+    if case.get("cond_inner"):
+        F0 = set(case["flags"])
+        if not case["cond_inner"]["empty"]:
+            bad = [t for t in o["tests"] if t[1] != "ok"]
+            if bad:
+                return f"conditional nested snapshots that hold the right values, evaluated in a loop, make the test fail: {bad[0][1]}"
+        else:
+            try:
+                conds = [n for n in ast.walk(ast.parse(o["arg"], mode="eval")) if isinstance(n, ast.IfExp)]
+                got = [ast.literal_eval(x.args[0]) if x.args else None for x in (conds[0].body, conds[0].orelse)]
+            except Exception as e:  # noqa
+                return f"rewritten argument unusable: {e}: {o['arg']}"
+            want = ["int", "str"] if "create" in F0 else [None, None]
+            if got != want:
+                return f"empty conditional nested snapshots compared with 'int' / 'str' in a loop hold {got} after a run with {sorted(F0)}, expected {want}: {o['old']} -> {o['arg']}"
     if case["usage"] in ("getitem_loop", "star_loop"):
         bad = [t for t in o["tests"] if t[1] != "ok"]
         if bad:
